@@ -373,6 +373,9 @@ func (gvar gvar) applyDeltasToPoints(glyph gID, coords []VarCoord, points []cont
 			if !applyToAll {
 				ptIndex = tuple.pointNumbers[i]
 			}
+			if int(ptIndex) >= len(deltas) {
+				continue
+			}
 			deltas[ptIndex].isExplicit = true
 			deltas[ptIndex].X += float32(xDeltas[i]) * scalar
 			deltas[ptIndex].Y += float32(yDeltas[i]) * scalar
